@@ -504,6 +504,11 @@ def run(ctx, report):
     from .c12 import shared_table_rule
     shared_table_rule(R11, [ctx.mod('ia32_arch'), ctx.mod('parse_ad'), ctx.mod('ia32_att')])
 
+    # ---------------------------------------------------------------- D14 the size the decoder prints is a size the row accepts
+    R14 = report.rule('C03.D14', 'for every /digit row with a memory form the operand size _dis gives the memory operand (its size statements evaluated) is accepted by check_size_modif '
+                      '(evaluated) for the modifiers of the same row: the rendering names a size under which the assembler offers the row again', floor=150)
+    digit_size_agreement_rule(ctx, R14)
+
     # ---------------------------------------------------------------- D12 the rendering determines the immediate (shared with C01.D13)
     R13 = report.rule('C03.D13', 'the segment override of a memory operand comes in front of the mandatory prefix of an MMX/SSE opcode in the prefixes asm_candidates collects '
                       '(asm_candidates interpreted up to the operand-size decision on 36 lines): the canonical bytes are among the candidates of their rendering', floor=10)
@@ -659,6 +664,49 @@ def run(ctx, report):
                          'renders differently' % (' and '.join('rejects operand forms' if k == 'rejects' else 'fixes an operand size' for k in kinds), lst),
                          where(arch, sites[0][1]), witness="asm('lgdt eax') == ['0f01d0'], which dis() rejects" if lst == 'mnemo_mem_only' else None)
 
+
+
+def digit_size_agreement_rule(ctx, R):
+    from ..consteval import PyRaise, class_obj
+    X = x86model(ctx)
+    E, afs, arch = X.env, X.afs, X.arch
+    csm = arch.method('x86allmncs', 'check_size_modif')
+    lg = Obj('log')
+    lg.debug = Native(lambda *a: None)
+    scope = dict((k_, v_) for k_, v_ in E.items() if isinstance(v_, (str, int, bool, list, tuple, dict)) or v_ is None)
+    scope.update({'x86_afs': afs, 'log': lg})
+    for fname_, fnode_ in arch.funcs.items():
+        scope.setdefault(fname_, fnode_)
+    done = set()
+    for path, c in sorted(X.cells.items()):
+        if not isinstance(c.row.afs, int) or c.modifs.get(E['mmx']) or path[-1] >= 0xC0 or path[0] == 0x66:
+            continue
+        k = (c.row.idx, c.name, tuple(sorted((str(a), str(b)) for a, b in c.modifs.items())))
+        if k in done:
+            continue
+        done.add(k)
+        dibs = list(c.row.rm)
+        ms = X.dis_operand_sizes(c.name, c.modifs, dibs, c.opc, c.row.afs, True, afs.u32)
+        if isinstance(ms, str):
+            continue                # the memory form is rejected / a NEVER site (C10)
+        inst = 'digit-size:%s %s' % (c.name, ' '.join('%02X' % b for b in c.opc))
+        rs = X.dis_operand_sizes(c.name, c.modifs, dibs, c.opc, c.row.afs, False, afs.u32)
+        if not isinstance(rs, str) and rs[1] != ms[1]:
+            R.ok(inst, nontrivial=False, sample='%s: the memory and the register form are sized differently (%s / %s); the mnemonic lists of C03.D7 decide' % (inst, ms[1], rs[1]))
+            continue
+        mod = dict((E[k_], None) for k_ in ('w8', 'se', 'sw', 'sd', 'wd', 'mmx', 'sg', 'dr', 'cr') if k_ in E)
+        mod.update(c.modifs)
+        try:
+            r = Evaluator(scope).call_user(csm, [class_obj(arch, 'x86allmncs', 'self'), ms[1], mod])
+        except PyRaise as e:
+            r = 'raises %s' % e.exc_name
+        except NotConst as e:
+            raise AnalysisError('check_size_modif is outside the evaluable subset: %s' % e)
+        if r is True:
+            R.ok(inst, sample='%s [mem] is printed with size %s, which check_size_modif accepts for the row' % (inst, ms[1]))
+        else:
+            R.violation(inst, 'digit-size:%s:%s' % (c.name, ms[1]), '%s: _dis gives the memory operand of %s the size %s, check_size_modif answers %s for the modifiers of that row: the rendering '
+                        '(%s PTR [..]) does not assemble back to this opcode' % (inst, c.row.key(), ms[1], r, ms[1]), where(arch, c.row.node), witness='df 6c 24 08 (fild QWORD PTR [esp+8])')
 
 
 MUTANTS = [
